@@ -331,7 +331,8 @@ func (c18) Run(tp *Tape, opt RunOpt) *RunOut {
 		}
 		return ast
 	}
-	ref := c18Once(mk, plan, nil, nil)
+	refSpy := &stepSpy{}
+	ref := c18Once(mk, plan, nil, refSpy)
 	if ref.runaway {
 		out.Discard = "reference-run-does-not-terminate"
 		return out
@@ -430,7 +431,11 @@ func (c18) Run(tp *Tape, opt RunOpt) *RunOut {
 	if opt.Tier == "thorough" {
 		maxLen, den = 5, 8
 	}
-	if len(out.Violations) == 0 && tp.Chance(LaneWork, 1, den) {
+	if enumerate := tp.Chance(LaneWork, 1, den); enumerate && refSpy.steps > 3000 {
+		// 1364 executions of a program of tens of thousands of steps would take minutes: long programs get seeded
+		// command tapes only
+		out.Stats["exhaustive_prefix_enumerations_skipped_long_program"]++
+	} else if len(out.Violations) == 0 && enumerate {
 		out.Stats["exhaustive_prefix_enumerations"]++
 		total := 1
 		for l := 1; l <= maxLen; l++ {
